@@ -7,6 +7,7 @@ import GormModel.Model.StmtCache
 import GormModel.Lemmas.StmtCacheInv
 import GormModel.Lemmas.StmtCacheLeak
 import GormModel.Lemmas.StmtCacheBroadcast
+import GormModel.Lemmas.StmtCacheTransp
 import GormModel.Gen.StmtCacheFacts
 import GormModel.Gen.LockSections
 namespace Gorm
@@ -174,6 +175,41 @@ def guardedRun : St :=
     (stepsOf 0 2 ++ stepsOf 1 2 ++ [.thr 0 .err] ++ stepsOf 0 2 ++ stepsOf 1 5 ++ stepsOf 2 1 ++ [.closeE 1])
 example : (let s := guardedRun
     quiescentB s = true ∧ result s 1 = some .rows ∧ leakedB s 0 = false ∧ foreignRemovals s = 0) := by decide
+
+/-- TRANSPARENCY, partial form (outside the F14a / F14c patterns).  In every state reachable by any schedule:
+    (1) a goroutine whose wait is over on a successfully prepared entry finds a statement there — the nil `*sql.Stmt`
+        dereference (`Res.nilStmt`) is unreachable;
+    (2) a pool statement is closed only by a closer that a Reset/Close spawned for its entry or by the `go stmt.Close()`
+        of an ErrBadConn eviction: as long as no Reset/Close has been executed and no operation has returned
+        ErrBadConn, a non-transaction operation that holds a statement executes it (it does not get
+        "sql: statement is closed"), whatever the driver answers.
+    The hypotheses of (2) are exactly the negation of F14a (Reset/Close through another struct) and F14c (Reset of the
+    own struct / eviction by another goroutine). -/
+theorem C14_transparent_partial (ops : List Op) (nV : Nat) (cfg : Cfg) (sched : List Act) (hw : wfOps ops nV) :
+    let s := run (init ops nV cfg) sched
+    (∀ t e, (s.threads t).pc = .waiting e → (s.entries e).prepared = true → (s.entries e).err = false →
+      ∃ h, (s.entries e).handle = some h) ∧
+    (∀ t v q e h a, t < s.nT → (s.threads t).op = .use v q false → (s.threads t).pc = .ready e h →
+      ¬ rcDone s → ¬ badDone s → act s (.thr t a) = some (setPc s t (.using e h))) := by
+  intro s
+  obtain ⟨h2, h3⟩ := inv3_reachable ops nV cfg hw sched
+  obtain ⟨hES, hRC, hBC, hCL, hUT⟩ := h3
+  refine ⟨fun t e hpc hp herr => hES e ((h2.1.1.1 t).1 e hpc).1 hp herr, ?_⟩
+  intro t v q e h a ht hop hpc hnr hnb
+  have h7 := (h2.1.1.1 t).2.2.2.2.2.2.1 e h (Or.inl hpc)
+  have htx : (s.entries e).tx = false := (hUT t e h7.2.2.2.2).2 v q hop
+  have hh := h2.2.2.2.1.2 e h h7.1 h7.2.2.2.1
+  have hh1 := h2.2.2.2.1.1 h hh.1
+  rw [hh.2] at hh1
+  have hhtx : (s.handles h).tx = false := by rw [← hh1.2.2.1]; exact htx
+  have hcl : (s.handles h).closed = false := by
+    cases hc : (s.handles h).closed with
+    | false => rfl
+    | true =>
+      rcases hCL h hh.1 hhtx hc with c | c
+      · exact absurd (hBC h hh.1 c) hnb
+      · rw [hh.2] at c; exact absurd (hRC e h7.1 c) hnr
+  simp [act, ht, tstep, hop, hpc, stepUse, hcl]
 
 /-! ### findings: concrete schedules on which the full statement fails (kernel-checked) -/
 
